@@ -105,7 +105,8 @@ type c10Target struct {
 }
 
 type c10World struct {
-	targets []*c10Target
+	targets    []*c10Target
+	bundleRead *c10Target
 }
 
 var c10DiscardLog = log.New(ioutil.Discard, "", 0)
@@ -169,9 +170,10 @@ func c10Build() *c10World {
 	for _, b := range c05BaseList {
 		bArts = append(bArts, &c10Artifact{name: "bundle-" + b.name, data: b.file, fields: b.ref.Fields})
 	}
-	w.targets = append(w.targets, &c10Target{name: "bundle.Read", artifacts: bArts, run: func(in []byte) {
+	w.bundleRead = &c10Target{name: "bundle.Read", artifacts: bArts, run: func(in []byte) {
 		bundle.Read(bytes.NewReader(in))
-	}})
+	}}
+	w.targets = append(w.targets, w.bundleRead)
 	// --- bundle signatures: hostile signed-subset bytes, properly signed by an authority
 	subset, _ := c18W.subset.Encode()
 	var subFields []refbx.Field
@@ -328,7 +330,15 @@ func init() {
 			if c10W == nil {
 				c10W = c10Build()
 			}
-			t := c10W.targets[c.Free(len(c10W.targets), "target")]
+			ti := c.Free(len(c10W.targets)+1, "target")
+			if ti == len(c10W.targets) {
+				// the bundle reader once more, on the structure-aware inputs of the C05
+				// generator (index locations re-encoded consistently, section-table edits,
+				// unknown sections): the monitor here is "returns, bounded allocation"
+				cs := c05GenFn(c).(*c05Case)
+				return &c10Case{target: c10W.bundleRead, input: cs.input, op: "c05:" + cs.base.name + ":" + cs.op}
+			}
+			t := c10W.targets[ti]
 			a := t.artifacts[c.Free(len(t.artifacts), "artifact")]
 			if a.data == nil {
 				// raw inputs: all strings <= 2 bytes (thorough) / over the reduced alphabet (quick), 3..4 bytes reduced
@@ -397,13 +407,16 @@ func init() {
 				return &c10Case{target: t, input: out, op: fmt.Sprintf("%s:byte@%d=%02x", a.name, off, nv)}
 			}
 		},
-		Exec:     c10Exec,
-		Describe: func(v interface{}) string { cs := v.(*c10Case); return cs.target.name + " " + cs.op + " " + hx(cs.input) },
+		Exec: c10Exec,
+		Describe: func(v interface{}) string {
+			cs := v.(*c10Case)
+			return cs.target.name + " " + cs.op + " " + hx(cs.input)
+		},
 	}
 	register(&mc.Property{
-		ID:    "C10",
-		Level: "model_checking",
-		Rule: "choice-tree enumeration of hostile inputs for every parser entry point (bundle.Read, ReadExchange, Exchange.Verify with hostile file / hostile cert chain, ReadCertChain, bundle signature NewVerifier+VerifyExchange on properly signed hostile subsets, both structured-header parsers, MI decoder for both drafts, every cbor.Decoder method, integrity-block detection on a reader and on a file), executed in watchdog-supervised workers under ulimit -v: valid artifacts of every format with one mutation (every CBOR length/count head x 11 boundary values, every fixed-width length field x boundary values, truncation at every offset, every byte x 8 values quick / 256 thorough) and all raw strings up to 3 bytes over a 21-byte alphabet (thorough: all strings <= 2 bytes, <= 4 reduced) with integrity-block tails. Monitor: returns (no panic, no crash, no hang) and heap allocation <= 64 MiB + 64 x len(input) (runtime/metrics). Every case is non-trivial (the monitor applies to all); distinct by (entry point, input).",
+		ID:          "C10",
+		Level:       "model_checking",
+		Rule:        "choice-tree enumeration of hostile inputs for every parser entry point (bundle.Read, ReadExchange, Exchange.Verify with hostile file / hostile cert chain, ReadCertChain, bundle signature NewVerifier+VerifyExchange on properly signed hostile subsets, both structured-header parsers, MI decoder for both drafts, every cbor.Decoder method, integrity-block detection on a reader and on a file), executed in watchdog-supervised workers under ulimit -v: valid artifacts of every format with one mutation (every CBOR length/count head x 11 boundary values, every fixed-width length field x boundary values, truncation at every offset, every byte x 8 values quick / 256 thorough) and all raw strings up to 3 bytes over a 21-byte alphabet (thorough: all strings <= 2 bytes, <= 4 reduced) with integrity-block tails. Monitor: returns (no panic, no crash, no hang) and heap allocation <= 64 MiB + 64 x len(input) (runtime/metrics). Every case is non-trivial (the monitor applies to all); distinct by (entry point, input).",
 		Assumptions: []string{"the allocation bound's constant covers the two 3-byte-length prologue buffers (2 x 16 MiB) the signed-exchange format itself allows", "cbor.Deterministic is not an entry point of this property (its refusal-by-panic is judged under C13)"},
 		Harnesses:   []*mc.Harness{h},
 		Guard: func(s map[string]*mc.Stats) error {
